@@ -90,6 +90,46 @@ theorem eventsFor_longest_prefix {K : Type} [DecidableEq K] {Ev : Type} (key : L
   obtain ⟨h1, h2, h3, h4⟩ := lookupLongest_spec key C msgs (msgs.length - 1)
   exact ⟨_, _, rfl, h1, h2, h3, fun q a b => h4 q a (by omega)⟩
 
+/-! ### requests with generation options / with an explicit state object -/
+
+/-- `generate_async(options=…)`: the options travel as a leading `context` message (text = `json.dumps` of the
+    options); everything else is the same request path -/
+def withOptions (opt : Option Str) (msgs : List Msg) : List Msg :=
+  match opt with
+  | some o => ⟨rContext, o⟩ :: msgs
+  | none => msgs
+
+/-- Isolation for requests WITH generation options: the schedule of effective requests is a schedule like any
+    other (instance of `isolated_if_injective`: the theorem quantifies over all requests). -/
+theorem isolated_with_options {K : Type} [DecidableEq K] {Ev : Type} (key : List Msg → K)
+    (hinj : ∀ a b, key a = key b → a = b) (conv : List Msg → List Ev) (turn : List Ev → Msg × List Ev)
+    (s : List (Nat × Option Str × List Msg))
+    (hc : Compatible (isoRuns key conv turn (s.map fun x => (x.1, withOptions x.2.1 x.2.2)))) (c : Nat) :
+    ofConv c (runT key conv turn [] (s.map fun x => (x.1, withOptions x.2.1 x.2.2)))
+      = runT key conv turn [] ((ofConv c s).map fun x => (x.1, withOptions x.2.1 x.2.2)) := by
+  have h := isolated_if_injective key hinj conv turn (s.map fun x => (x.1, withOptions x.2.1 x.2.2)) hc c
+  have e : ofConv c (s.map fun x => (x.1, withOptions x.2.1 x.2.2))
+      = (ofConv c s).map fun x => (x.1, withOptions x.2.1 x.2.2) := by
+    simp only [ofConv, List.filter_map]; rfl
+  rw [← e]; exact h
+
+/-- With the lookup guarded by `state is None` a request that carries a state object is handed events that do not
+    depend on the implicit cache at all, i.e. on no other conversation served by the instance (and such a request
+    never writes the cache: `if state is None` around the write, located by the static tie). -/
+theorem state_request_independent_of_cache {K : Type} [DecidableEq K] {Ev : Type} (key : List Msg → K)
+    (conv : List Msg → List Ev) (C C' : Cache K Ev) (stateEv : List Ev) (msgs : List Msg) :
+    eventsForState true key conv C stateEv msgs = eventsForState true key conv C' stateEv msgs := rfl
+
+/-- As the code is, the lookup ignores `state`: a request with a state object whose messages extend a history
+    stored for another conversation is continued from THAT conversation's events (finite fact, `decide`). -/
+theorem state_request_as_is_counterexample :
+    eventsForState false (fun m => m) convTailC
+        [([⟨rUser, ['a']⟩, ⟨rAssistant, ['b']⟩], [CEv.opaque 1])] []
+        [⟨rUser, ['a']⟩, ⟨rAssistant, ['b']⟩, ⟨rUser, ['x']⟩]
+      ≠ eventsForState false (fun m => m) convTailC [] []
+        [⟨rUser, ['a']⟩, ⟨rAssistant, ['b']⟩, ⟨rUser, ['x']⟩] := by
+  decide
+
 /-! ### the conversion of the current source (`convTailC`): declarative specification
 
   Every tail falls in exactly one of three classes: it contains no user/assistant message at all, its last
